@@ -365,6 +365,13 @@ def run(ctx):
     from . import readtables
     readtables.rule_structure(ctx, "C06-structure")
 
+    # ------------------------------------------------------------------ C06-file-text
+    ctx.rule("C06-file-text", "source read from a file reaches the reader unchanged (line ends kept or CRLF folded, at most a final newline "
+                              "added): fourteen file texts, among them the character #\\space as the last token of a line and strings / "
+                              "|symbols| with blanks before a raw line break (table of file_char_stream, shared with C17)")
+    from . import ioerrors as _io06
+    _io06.rule_stream(ctx, "C06-file-text")
+
     # ------------------------------------------------------------------ C06-quote
     ctx.rule("C06-quote", "'x builds (quote x) and the evaluator routes that keyword to transform_quote")
     pq = fb.find("parser::parser::Parser::parse_quoted")
